@@ -555,6 +555,41 @@ int _vnacal_new_add_common(vnacal_new_add_arguments_t vnaa)
 	qsort((void *)m_port_map, s_ports, sizeof(int), int_cmp);
 
 	/*
+	 * The measurement matrix cannot be larger than that of the
+	 * calibration, and an abbreviated row or column has to exist
+	 * in it: in a rectangular calibration, the higher ports have
+	 * no row (or no column).
+	 */
+	if (b_rows > full_m_rows || b_columns > full_m_columns) {
+	    _vnacal_error(vcp, VNAERR_USAGE, "%s: the measurement matrix "
+		    "cannot be larger than %d x %d",
+		    function, full_m_rows, full_m_columns);
+	    goto out;
+	}
+	if (b_rows < full_m_rows) {
+	    for (int b_row = 0; b_row < MIN(b_rows, s_ports); ++b_row) {
+		if (m_port_map[b_row] - 1 >= full_m_rows) {
+		    _vnacal_error(vcp, VNAERR_USAGE, "%s: port %d has no row "
+			    "in the measurement matrix: all %d rows must be "
+			    "given", function, m_port_map[b_row], full_m_rows);
+		    goto out;
+		}
+	    }
+	}
+	if (b_columns < full_m_columns) {
+	    for (int b_column = 0; b_column < MIN(b_columns, s_ports);
+		    ++b_column) {
+		if (m_port_map[b_column] - 1 >= full_m_columns) {
+		    _vnacal_error(vcp, VNAERR_USAGE, "%s: port %d has no "
+			    "column in the measurement matrix: all %d columns "
+			    "must be given", function, m_port_map[b_column],
+			    full_m_columns);
+		    goto out;
+		}
+	    }
+	}
+
+	/*
 	 * Make a map from the cells of the argument B matrix to the cells
 	 * of the vnacal_new_measurement_t M matrix in (with port map).
 	 */
